@@ -3,8 +3,10 @@
 //! usage: vp <check> [--tier quick|thorough] [--seed N] [--shard i/n] [--out file] [--replay file]
 
 mod c04;
+mod c09;
 mod c10;
 mod c13;
+mod c14;
 mod c16;
 mod c18;
 mod drive;
@@ -72,8 +74,10 @@ fn main() {
             }
         },
         "c04" => c04::run(&mut rep, &tier, seed, shard, replay.as_deref()),
+        "c09" => c09::run(&mut rep, &tier, seed, shard, replay.as_deref()),
         "c10" => c10::run(&mut rep, &tier, seed, shard, replay.as_deref()),
         "c13" => c13::run(&mut rep, &tier, seed, shard, replay.as_deref()),
+        "c14" => c14::run(&mut rep, &tier, seed, shard, replay.as_deref()),
         "c16" => c16::run(&mut rep, &tier, seed, shard),
         "c18" => c18::run(&mut rep, &tier, seed, shard, replay.as_deref()),
         other => {
